@@ -486,3 +486,74 @@ func VerifPipelineDeep() {
 	}
 	verifReach("pipeline completed")
 }
+
+// ---- scenario 4: one entity under two response paths (de-duplicated lookups fanned out to both), a
+// client variable called id, a second hop ----
+
+const vSR1 = `
+interface Node { id: ID! }
+type User implements Node { id: ID! name: String! }
+type Query { node(id: ID!): Node me: User user(id: ID!): User }
+`
+const vSR2 = `
+interface Node { id: ID! }
+type User implements Node { id: ID! reviews: [Review!]! }
+type Review implements Node { id: ID! body: String! author: User! }
+type Query { node(id: ID!): Node }
+`
+const vSR3 = `
+interface Node { id: ID! }
+type Review implements Node { id: ID! stars: Int }
+type Query { node(id: ID!): Node }
+`
+
+func vReviewsWorld() *vWorld {
+	w := &vWorld{ents: map[string]vEnt{}, roots: map[string]interface{}{}}
+	w.ents["u1"] = vEnt{"__typename": "User", "id": "u1", "reviews": []vRef{{"Review", "r1"}, {"Review", "r2"}}}
+	w.ents["u2"] = vEnt{"__typename": "User", "id": "u2", "reviews": []vRef{}}
+	w.ents["r1"] = vEnt{"__typename": "Review", "id": "r1", "author": vRef{"User", "u2"}, "stars": verifInt("r1_stars", 0, 5)}
+	w.ents["r2"] = vEnt{"__typename": "Review", "id": "r2", "author": vRef{"User", "u1"}, "stars": nil}
+	w.roots["Query.me"] = vRef{"User", "u1"}
+	w.roots["Query.user"] = vRef{"User", "u1"}
+	return w
+}
+
+func vReviewsOps() []vOp {
+	return []vOp{
+		// identical lookups for both aliases; what happens to one copy of the answer must not show in the other
+		{q: `{ a: me { reviews { body } } b: me { reviews { id body } } }`},
+		{q: `{ a: me { reviews { body } } b: me { reviews { body stars } } }`},
+		{q: `{ a: me { reviews { body author { name } } } b: me { reviews { body } } }`},
+		// a client variable called id, and a second hop that completes another entity
+		{q: `query($id: ID!) { user(id: $id) { name reviews { body author { name } } } }`, vars: func() map[string]interface{} { return map[string]interface{}{"id": "u1"} }},
+		{q: `query($uid: ID!) { user(id: $uid) { name reviews { stars author { name reviews { body } } } } }`, vars: func() map[string]interface{} { return map[string]interface{}{"uid": "u1"} }},
+	}
+}
+
+func VerifPipelineReviews() {
+	ops := vReviewsOps()
+	op := ops[verifChoice("op", len(ops))]
+	verifLog("op: " + op.q)
+	var vars map[string]interface{}
+	if op.vars != nil {
+		vars = op.vars()
+	}
+	w := vReviewsWorld()
+	hint := func(id interface{}) (string, bool) {
+		s, _ := id.(string)
+		switch {
+		case strings.HasPrefix(s, "u"):
+			return "User", true
+		case strings.HasPrefix(s, "r"):
+			return "Review", true
+		}
+		return "", false
+	}
+	for _, cfg := range []vConfig{
+		{name: "default", opts: func() []GatewayOption { return nil }},
+		{name: "hint", opts: func() []GatewayOption { return []GatewayOption{WithGetParentTypeFromIDFunc(hint)} }},
+	} {
+		vCheckOne(w, cfg, op, vars, []string{vSR1, vSR2, vSR3})
+	}
+	verifReach("pipeline completed")
+}
